@@ -4,6 +4,7 @@ mod ep;
 mod fq;
 mod pipes;
 mod proxy;
+mod rt;
 mod sock;
 mod ts;
 mod util;
@@ -72,6 +73,7 @@ fn run_case(kind: &str, args: &[&str]) -> String {
         "fq" => fq::run(args),
         "ts" => ts::run(args),
         "ep" => ep::run(args),
+        "rt" => rt::run(args),
         "proxy" => proxy::run(args),
         "compat" => codec_cases::compat(args),
         "stypename" => codec_cases::stypename(args),
